@@ -19,10 +19,18 @@ import (
 	"golang.org/x/tools/go/ssa"
 	"math"
 	"math/big"
+	"os"
+	"strconv"
 	"strings"
 	"sync"
 	"time"
 )
+
+// slowLogMs: GOSYM_SLOW=<ms> prints every solver query slower than that (debugging aid).
+var slowLogMs, _ = strconv.Atoi(os.Getenv("GOSYM_SLOW"))
+
+// forceEscalate: GOSYM_FORCE_ESCALATE=1 sends every assertion query through escalate() (testing aid).
+var forceEscalate = os.Getenv("GOSYM_FORCE_ESCALATE") == "1"
 
 type Decision struct {
 	Dir bool
@@ -72,6 +80,7 @@ type Stats struct {
 	Queries, QSat, QUnsat, QUnknown                                         int
 	SolverTime                                                              time.Duration
 	CrossChecks, CrossDisagree                                              int
+	Escalated, EscalatedDecided                                             int
 	Errors                                                                  map[string]int
 	Funcs                                                                   map[string]bool
 	Stubs                                                                   map[string]int
@@ -551,8 +560,16 @@ func (p *Path) check(c *Term, wantModel bool) (Verdict, Model) {
 	s := p.w.solver
 	s.send("(push 1)\n(assert " + cs + ")\n")
 	s.tempPush = true
+	tq := time.Now()
 	v := s.checkSat()
 	s.tempPush = false
+	if slowLogMs > 0 && time.Since(tq) > time.Duration(slowLogMs)*time.Millisecond {
+		note := ""
+		if len(p.ghost) > 0 {
+			note = p.ghost[0]
+		}
+		fmt.Fprintf(os.Stderr, "SLOW %s %.1fs note=%s len=%d q=%.300s\n", v, time.Since(tq).Seconds(), note, len(cs), cs)
+	}
 	var m Model
 	if v == Sat && wantModel {
 		m = p.fetchModel()
@@ -853,9 +870,11 @@ func (p *Path) CheckAssert(c *Term, kind, msg, where string) {
 		return
 	}
 	v, _ := p.check(tNot(c), true)
-	for retry := 0; v == Unknown && retry < 2; retry++ {
-		// the timeout is wall-clock: under load a query near the limit deserves another go before the run is called inconclusive
-		v, _ = p.check(tNot(c), true)
+	if v == Unknown || forceEscalate {
+		// The per-query limit is tuned for feasibility queries (an unknown one only keeps a branch) and is
+		// wall-clock, so under load an assertion query near it comes back unknown. The run is called
+		// inconclusive only after the same query, from scratch, had a long limit on both back ends.
+		v = p.escalate(tNot(c))
 	}
 	switch v {
 	case Sat:
@@ -865,6 +884,72 @@ func (p *Path) CheckAssert(c *Term, kind, msg, where string) {
 		panic(engineError{"solver unknown on assertion: " + msg})
 	}
 	p.assertTerm(c)
+}
+
+// escalateMs is the per-query limit of an escalated assertion query (GOSYM_ESCALATE_MS overrides).
+func escalateMs(base int) int {
+	if n, err := strconv.Atoi(os.Getenv("GOSYM_ESCALATE_MS")); err == nil && n > 0 {
+		return n
+	}
+	if 15*base > 120000 {
+		return 15 * base
+	}
+	return 120000
+}
+
+// escalate decides pc ∧ c again on fresh solver processes with a long limit: first the primary back end,
+// then the other one. The query text is the retained context plus c, exactly what the primary was asked.
+// A sat answer leaves its model in w.lastVals like check does.
+func (p *Path) escalate(c *Term) Verdict {
+	w := p.w
+	p.termStr(c)
+	p.flush()
+	prim := w.solver
+	kinds := []string{prim.name, "cvc5"}
+	if prim.name == "cvc5" {
+		kinds[1] = "z3"
+	}
+	w.ex.mu.Lock()
+	w.ex.stats.Escalated++
+	w.ex.mu.Unlock()
+	for _, kind := range kinds {
+		es, err := startSolver(kind, escalateMs(prim.timeoutMs))
+		if err != nil {
+			continue
+		}
+		var sb strings.Builder
+		for _, lv := range w.ctx.levels {
+			sb.WriteString(lv.text.String())
+		}
+		es.send(sb.String())
+		v := func() (v Verdict) {
+			w.solver = es
+			defer func() {
+				w.solver = prim
+				if r := recover(); r != nil {
+					if _, ok := r.(engineError); !ok {
+						panic(r)
+					}
+					v = Unknown
+				}
+			}()
+			v, _ = p.check(c, true)
+			return v
+		}()
+		prim.queries += es.queries
+		prim.nSat += es.nSat
+		prim.nUnsat += es.nUnsat
+		prim.nUnk += es.nUnk
+		prim.elapsed += es.elapsed
+		es.close()
+		if v != Unknown {
+			w.ex.mu.Lock()
+			w.ex.stats.EscalatedDecided++
+			w.ex.mu.Unlock()
+			return v
+		}
+	}
+	return Unknown
 }
 
 func (p *Path) violation(kind, msg, where string, vals map[string]ModelVal) {
